@@ -12,7 +12,7 @@ from registry import register, replayer
 
 ALL = ["PID", "CmdPID", "EWMA", "EWMAQ", "MA", "MAQ", "Integral", "Derivative",
        "AccToState", "VelToState", "PosToState", "F2Q", "Q2F", "Freeze"]
-WIDE = {"CmdPID", "EWMA", "EWMAQ", "MA", "MAQ", "Freeze"}    # larger alphabets
+WIDE = {"CmdPID", "CmdPIDF", "EWMA", "EWMAQ", "MA", "MAQ", "Freeze"}    # larger alphabets
 
 
 def concs_for(ctx, n_random):
@@ -174,7 +174,7 @@ def c10(ctx):
 def c11(ctx):
     p = (dict(exh_narrow=0, exh_wide=4, sim_num=600, sim_depth=14, rich=False, n_random_concs=2) if ctx.tier == "quick" else
          dict(exh_narrow=0, exh_wide=5, sim_num=5000, sim_depth=48, rich=False, n_random_concs=5))
-    mism, summary, total = run_streams(ctx, ["CmdPID"], **p)
+    mism, summary, total = run_streams(ctx, ["CmdPID", "CmdPIDF"], **p)
     stream_traces(ctx, ["CmdPID"], 300 if ctx.tier == "quick" else 5000)
     finish_streams(ctx, summary, total,
                    "Events: present state sample, absent, two error identities, set(command) with same / other kind / other "
